@@ -1188,12 +1188,52 @@ func cmdConcurrent(args []string) {
 			if len(cands) < 2 {
 				continue // every object gets the same answers from this block: nothing to mix up
 			}
-			if len(cands) > nobj {
-				cands = cands[:nobj]
+			// first, for every lint of the block, objects on which THAT lint answers differently (up to three answers per lint,
+			// judged ones first): a helper private to one lint is then fed different inputs at the same instant whatever the
+			// other lints of the block say; then the objects that differ on the block as a whole
+			picked := map[int]bool{}
+			var order []int
+			for _, n := range chunkNames[ci] {
+				seenV := map[string]bool{}
+				var judgedFirst, rest []int
+				for _, i := range perm {
+					if all[i].Kind != kind {
+						continue
+					}
+					v := vec[i][n]
+					if v == "" || seenV[v] {
+						continue
+					}
+					seenV[v] = true
+					if strings.HasPrefix(v, "1.") || strings.HasPrefix(v, "2.") {
+						rest = append(rest, i)
+					} else {
+						judgedFirst = append(judgedFirst, i)
+					}
+				}
+				take := append(judgedFirst, rest...)
+				if len(take) > 3 {
+					take = take[:3]
+				}
+				for _, i := range take {
+					if !picked[i] && len(order) < nobj+len(chunkNames[ci]) {
+						picked[i] = true
+						order = append(order, i)
+					}
+				}
+			}
+			for _, cd := range cands {
+				if !picked[cd.i] && len(order) < nobj+3 {
+					picked[cd.i] = true
+					order = append(order, cd.i)
+				}
 			}
 			objs := []*Target{}
-			for _, cd := range cands {
-				objs = append(objs, all[cd.i])
+			for _, i := range order {
+				objs = append(objs, all[i])
+			}
+			if len(objs) < 2 {
+				continue
 			}
 			progs := make([][]cOp, ng)
 			for g := 0; g < ng; g++ {
